@@ -302,6 +302,18 @@ func (s *symProver) symmetricFn(g *ssa.Function) string {
 	if why, ok := s.assumed[g]; ok {
 		return "ASSUMED: " + g.Name() + " — " + why
 	}
+	// a sum over the union of the keys of two maps, computed in two passes
+	if len(g.Params) == 2 {
+		if _, isMap := g.Params[0].Type().Underlying().(*types.Map); isMap {
+			if ok, why := s.proveTwoPassUnionSum(g); ok {
+				return g.Name() + " proved symmetric as a two-pass sum over the union of keys"
+			} else {
+				s.used["!"+g.Name()] = true
+				s.subWhy = g.Name() + " is not shown swap-invariant (" + why + ")"
+				return ""
+			}
+		}
+	}
 	if s.depth > 3 || len(g.Params) != 2 || g.Blocks == nil {
 		return ""
 	}
@@ -592,9 +604,6 @@ func c19Sym(r *core.Run) {
 		return
 	}
 	assumed := map[*ssa.Function]string{}
-	if ms := p.Func("pkg/analysis/topology", "MapSimilarity"); ms != nil {
-		assumed[ms] = "weighted Jaccard index of two frequency maps computed in two passes (keys of the first map, then keys only in the second); its symmetry rests on max(c,0)=c and min(c,0)=0 for non-negative counts, an arithmetic fact outside this procedure"
-	}
 	s := &symProver{p: p, fn: sim, a: sim.Params[0], b: sim.Params[1], state: map[[2]ssa.Value]int{}, assumed: assumed, used: map[string]bool{}}
 	ok := s.prove()
 	var lemmas []string
@@ -619,4 +628,304 @@ func sortStrings(s []string) {
 			s[j], s[j-1] = s[j-1], s[j]
 		}
 	}
+}
+
+// ---- two-pass union sums: f(X, Y) = R(Σ_{k∈X} e(X[k], Y[k] or 0) + Σ_{k∈Y, k∉X} h(Y[k]), …)
+//
+// Such a function is symmetric if (O1) every per-key term e is symmetric in its two counts, (O2) the second pass adds
+// for a key that only Y has exactly what the first pass would add for a key that only X has — h(c) = e(c, 0) — and
+// (O3) the final expression R treats the accumulated sums (and anything else) symmetrically. e(c, 0) is simplified
+// with min(c,0) = 0 and max(c,0) = c, which holds for non-negative counts (a stated assumption).
+
+func (s *symProver) proveTwoPassUnionSum(g *ssa.Function) (bool, string) {
+	if len(g.Params) != 2 || g.Blocks == nil {
+		return false, "not a two-parameter function"
+	}
+	type pass struct {
+		over, other ssa.Value
+		header      *ssa.BasicBlock
+		body        map[*ssa.BasicBlock]bool
+		key, val    ssa.Value
+	}
+	var passes []pass
+	core.InstrsOf(g, func(in ssa.Instruction) {
+		rg, ok := in.(*ssa.Range)
+		if !ok {
+			return
+		}
+		var other ssa.Value
+		switch rg.X {
+		case ssa.Value(g.Params[0]):
+			other = g.Params[1]
+		case ssa.Value(g.Params[1]):
+			other = g.Params[0]
+		default:
+			return
+		}
+		if rg.Referrers() == nil {
+			return
+		}
+		for _, ref := range *rg.Referrers() {
+			nx, ok := ref.(*ssa.Next)
+			if !ok || nx.Referrers() == nil {
+				continue
+			}
+			p := pass{over: rg.X, other: other, header: nx.Block(), body: loopBody(nx.Block())}
+			for _, r2 := range *nx.Referrers() {
+				if ex, ok := r2.(*ssa.Extract); ok {
+					switch ex.Index {
+					case 1:
+						p.key = ex
+					case 2:
+						p.val = ex
+					}
+				}
+			}
+			passes = append(passes, p)
+		}
+	})
+	if len(passes) != 2 || passes[0].over == passes[1].over {
+		return false, fmt.Sprintf("expected one pass over each of the two maps, found %d", len(passes))
+	}
+	p1, p2 := passes[0], passes[1]
+	if p2.header.Dominates(p1.header) {
+		p1, p2 = p2, p1
+	}
+	if p1.val == nil || p2.val == nil || p2.key == nil {
+		return false, "a pass does not use both key and value"
+	}
+	// value-or-zero lookups of the other map under the first pass's key
+	isOtherCount := func(v ssa.Value) bool {
+		switch x := v.(type) {
+		case *ssa.Lookup:
+			return !x.CommaOk && x.X == p1.other && x.Index == p1.key
+		case *ssa.Extract:
+			lk, ok := x.Tuple.(*ssa.Lookup)
+			return ok && x.Index == 0 && lk.X == p1.other && lk.Index == p1.key
+		}
+		return false
+	}
+	// accumulators of pass 1
+	type acc struct {
+		ph1   *ssa.Phi
+		e     ssa.Value // per-key term of pass 1 (nil = none)
+		ph2   *ssa.Phi
+		h     ssa.Value // per-key term of pass 2 (nil = none)
+		final ssa.Value
+	}
+	var accs []*acc
+	termOf := func(ph *ssa.Phi, body map[*ssa.BasicBlock]bool) (terms []ssa.Value, ok bool) {
+		for i, e := range ph.Edges {
+			if !body[ph.Block().Preds[i]] {
+				continue // initial value
+			}
+			if e == ssa.Value(ph) {
+				continue // unchanged on this path
+			}
+			b, isAdd := e.(*ssa.BinOp)
+			if !isAdd || b.Op != token.ADD {
+				return nil, false
+			}
+			switch {
+			case b.X == ssa.Value(ph):
+				terms = append(terms, b.Y)
+			case b.Y == ssa.Value(ph):
+				terms = append(terms, b.X)
+			default:
+				return nil, false
+			}
+		}
+		return terms, true
+	}
+	for _, in := range p1.header.Instrs {
+		ph, ok := in.(*ssa.Phi)
+		if !ok {
+			break
+		}
+		ts, ok := termOf(ph, p1.body)
+		if !ok || len(ts) > 1 {
+			return false, "accumulator " + ph.Comment + " is not updated as acc += term in the first pass"
+		}
+		a := &acc{ph1: ph, final: ph}
+		if len(ts) == 1 {
+			a.e = ts[0]
+		}
+		accs = append(accs, a)
+	}
+	notInFirst := func(cond ssa.Value) (bool, bool) {
+		base, neg := core.StripNot(cond)
+		ex, ok := base.(*ssa.Extract)
+		if !ok || ex.Index != 1 {
+			return false, false
+		}
+		lk, ok := ex.Tuple.(*ssa.Lookup)
+		if !ok || !lk.CommaOk || lk.X != p2.other || lk.Index != p2.key {
+			return false, false
+		}
+		return true, neg // pass when "present" is false
+	}
+	for _, in := range p2.header.Instrs {
+		ph, ok := in.(*ssa.Phi)
+		if !ok {
+			break
+		}
+		ts, ok := termOf(ph, p2.body)
+		if !ok || len(ts) > 1 {
+			return false, "accumulator " + ph.Comment + " is not updated as acc += term in the second pass"
+		}
+		var init ssa.Value
+		for i, e := range ph.Edges {
+			if !p2.body[ph.Block().Preds[i]] {
+				init = e
+			}
+		}
+		var a *acc
+		for _, c := range accs {
+			if init == ssa.Value(c.ph1) {
+				a = c
+			}
+		}
+		if a == nil {
+			a = &acc{}
+			accs = append(accs, a)
+		}
+		a.ph2, a.final = ph, ph
+		if len(ts) == 1 {
+			a.h = ts[0]
+			// the update happens only for keys the first map does not have
+			add := ts[0]
+			var addBlock *ssa.BasicBlock
+			for _, e := range ph.Edges {
+				if b, ok := e.(*ssa.BinOp); ok && (b.X == add || b.Y == add) {
+					addBlock = b.Block()
+				}
+			}
+			if addBlock == nil {
+				return false, "cannot locate the second pass's update"
+			}
+			ok1, n1, _ := core.MustPassFrom(g, p2.header, addBlock, notInFirst, nil)
+			if !(ok1 && n1 > 0) {
+				return false, "the second pass adds for keys that the first map has as well (double counting for shared keys on one side only)"
+			}
+		}
+	}
+	// simplification of e(c, 0)
+	var simp func(v ssa.Value, cnt ssa.Value, zero func(ssa.Value) bool, d int) string
+	simp = func(v ssa.Value, cnt ssa.Value, zero func(ssa.Value) bool, d int) string {
+		if d > 8 {
+			return "?"
+		}
+		if v == cnt {
+			return "c"
+		}
+		if zero != nil && zero(v) {
+			return "0"
+		}
+		switch x := v.(type) {
+		case *ssa.Const:
+			if k, ok := core.ConstInt(x); ok {
+				return fmt.Sprint(k)
+			}
+		case *ssa.Convert:
+			return simp(x.X, cnt, zero, d+1)
+		case *ssa.BinOp:
+			a, b := simp(x.X, cnt, zero, d+1), simp(x.Y, cnt, zero, d+1)
+			switch x.Op {
+			case token.ADD:
+				if a == "0" {
+					return b
+				}
+				if b == "0" {
+					return a
+				}
+			case token.MUL:
+				if a == "0" || b == "0" {
+					return "0"
+				}
+			}
+			return "(" + a + x.Op.String() + b + ")"
+		case *ssa.Call:
+			kind := ""
+			if bi, ok := x.Call.Value.(*ssa.Builtin); ok && (bi.Name() == "min" || bi.Name() == "max") {
+				kind = bi.Name()
+			} else if callee := core.StaticCallee(&x.Call); callee != nil {
+				kind = minMaxKind(callee)
+			}
+			if kind != "" && len(x.Call.Args) == 2 {
+				a, b := simp(x.Call.Args[0], cnt, zero, d+1), simp(x.Call.Args[1], cnt, zero, d+1)
+				other := ""
+				switch {
+				case a == "0":
+					other = b
+				case b == "0":
+					other = a
+				}
+				if other == "c" { // counts are non-negative
+					if kind == "min" {
+						return "0"
+					}
+					return "c"
+				}
+				return kind + "(" + a + "," + b + ")"
+			}
+		}
+		return "?" + core.Canon(v)
+	}
+	for _, a := range accs {
+		name := "accumulator"
+		if a.ph1 != nil {
+			name = a.ph1.Comment
+		} else if a.ph2 != nil {
+			name = a.ph2.Comment
+		}
+		// (O1)
+		if a.e != nil {
+			sub := &symProver{p: s.p, fn: g, a: g.Params[0], b: g.Params[1], state: map[[2]ssa.Value]int{}, assumed: s.assumed, used: s.used, depth: s.depth + 1, mirror: map[ssa.Value]ssa.Value{}}
+			core.InstrsOf(g, func(in ssa.Instruction) {
+				if v, ok := in.(ssa.Value); ok && isOtherCount(v) {
+					sub.mirror[v] = p1.val
+					sub.mirror[p1.val] = v
+				}
+			})
+			if len(sub.mirror) == 0 {
+				return false, "the first pass does not consult the other map under the same key"
+			}
+			if !sub.eq(a.e, a.e) {
+				return false, "the per-key term of " + name + " is not symmetric in the two counts: " + sub.why
+			}
+		}
+		// (O2)
+		want := "0"
+		if a.e != nil {
+			want = simp(a.e, p1.val, isOtherCount, 0)
+		}
+		got := "0"
+		if a.h != nil {
+			got = simp(a.h, p2.val, nil, 0)
+		}
+		if want != got {
+			return false, fmt.Sprintf("for a key that only one map has, %s receives %s when it is in the first map but %s when it is in the second", name, want, got)
+		}
+	}
+	// (O3)
+	fin := &symProver{p: s.p, fn: g, a: g.Params[0], b: g.Params[1], state: map[[2]ssa.Value]int{}, assumed: s.assumed, used: s.used, depth: s.depth + 1, mirror: map[ssa.Value]ssa.Value{}, skip: map[*ssa.BasicBlock]bool{}}
+	for _, a := range accs {
+		if a.final != nil {
+			fin.mirror[a.final] = a.final
+		}
+		if a.ph1 != nil {
+			fin.mirror[a.ph1] = a.ph1
+		}
+	}
+	for b := range p1.body {
+		fin.skip[b] = true
+	}
+	for b := range p2.body {
+		fin.skip[b] = true
+	}
+	if !fin.prove() {
+		return false, "the result is not a symmetric function of the accumulated sums: " + fin.why
+	}
+	s.used["ASSUMED: the counts stored in a frequency map are non-negative (min(c,0)=0, max(c,0)=c)"] = true
+	return true, ""
 }
